@@ -19,6 +19,7 @@ package scalarDistribution
 /* -------------------------------------------------------------------------- */
 
 import   "fmt"
+import   "math"
 
 import . "github.com/pbenner/autodiff"
 import . "github.com/pbenner/autodiff/statistics"
@@ -72,7 +73,12 @@ func (dist *CategoricalDistribution) ScalarType() ScalarType {
 }
 
 func (dist *CategoricalDistribution) LogPdf(r Scalar, x ConstScalar) error {
-  r.Set(dist.Theta.At(int(x.GetFloat64())))
+  v := x.GetFloat64()
+  if math.Floor(v) != v || v < 0.0 || v >= float64(dist.Theta.Dim()) {
+    r.SetFloat64(math.Inf(-1))
+    return nil
+  }
+  r.Set(dist.Theta.At(int(v)))
   return nil
 }
 
@@ -85,8 +91,9 @@ func (dist *CategoricalDistribution) Pdf(r Scalar, x ConstScalar) error {
 }
 
 func (dist *CategoricalDistribution) LogCdf(r Scalar, x ConstScalar) error {
-  r.Reset()
-  for i := 0; i <= int(x.GetFloat64()); i++ {
+  v := x.GetFloat64()
+  r.SetFloat64(math.Inf(-1))
+  for i := 0; i < dist.Theta.Dim() && float64(i) <= v; i++ {
     r.LogAdd(r, dist.Theta.At(i), dist.t)
   }
   return nil
